@@ -225,7 +225,17 @@ func runGateWait(cs Case) outcome {
 		time.Sleep(bound)
 		refDone <- time.Since(t0)
 	}()
-	r := s.call(ctx, 101, callTimeout)
+	// the call is known to wait for the renewal (open finding); the renewal itself is bounded by
+	// the channel's RequestTimeout + leniency, and so is this wait of the driver
+	resCh := make(chan callRes, 1)
+	go func() { resCh <- s.call(ctx, 101, callTimeout) }()
+	var r callRes
+	select {
+	case r = <-resCh:
+	case <-time.After(opTimeout + leniency + 6*time.Second):
+		return outcome{status: "violation", class: class, key: "renewal-without-response-not-bounded",
+			detail: fmt.Sprintf("a renewal whose OPN request is not answered did not end within the channel's request timeout %s + %s leniency + 6 s slack: a request waiting at the gate is still blocked", opTimeout, leniency)}
+	}
 	ref := <-refDone
 	// let the renewal finish (answer it) so that the channel can be closed cleanly
 	s.releaseHeld()
